@@ -397,6 +397,44 @@ Definition file_ops (name : str) (full : Z) (resume : option (list step_arg * Z)
   | None => [OpSize full]
   end ++ map mk_step steps ++ [mk_done done].
 
+(* ---- the ORDER in which a transfer makes its callbacks, as a language over (callback, number):
+   onNum; then per entry onName and, unless it is a directory, either
+     onSize(full) onStep* onDone                                          (sent from its beginning)
+     onSize(full) onStep* setPreSize(m) onSize(full-m) onStep* onDone     (a prefix is at the destination)
+   with the steps of each phase in non-decreasing order within the announced size, the last one
+   equal to it (an empty file has no step at all), and m = the last matching hash step (0 when none).  Every step of an entry comes
+   before its onDone and before anything of the next entry. ---- *)
+Inductive cbstate :=
+| CbStart
+| CbFiles                       (* between entries: a name may follow *)
+| CbNamed                       (* after onName *)
+| CbSized (x last : Z)          (* after the first onSize(x); last = the last step, -1 = none *)
+| CbPre (x m : Z)               (* after setPreSize(m) *)
+| CbData (r last : Z)           (* after onSize(r), r = x - m *)
+| CbBad.
+
+Definition cb_next (st : cbstate) (o : op) : cbstate :=
+  match o, st with
+  | OpPause _, _ | OpCols _, _ => st
+  | OpNum _, CbStart => CbFiles
+  | OpName _, CbFiles => CbNamed
+  | OpName _, CbNamed => CbNamed
+  | OpSize x, CbNamed => if 0 <=? x then CbSized x (-1) else CbBad
+  | OpStep s _ _ _ _, CbSized x last => if (last <=? s) && (s <=? x) then CbSized x s else CbBad
+  | OpPre m, CbSized x last => if m =? Z.max last 0 then CbPre x m else CbBad
+  | OpDone _ _ _ _, CbSized x last => if Z.max last 0 =? x then CbFiles else CbBad
+  | OpSize r, CbPre x m => if r =? x - m then CbData r (-1) else CbBad
+  | OpStep s _ _ _ _, CbData r last => if (last <=? s) && (s <=? r) then CbData r s else CbBad
+  | OpDone _ _ _ _, CbData r last => if Z.max last 0 =? r then CbFiles else CbBad
+  | _, _ => CbBad
+  end.
+
+Definition cb_lang_ok (ops : list op) : bool :=
+  match fold_left cb_next ops CbStart with
+  | CbFiles | CbNamed => true
+  | _ => false
+  end.
+
 (* ---- the session state machine ---- *)
 Record session := { s_cols : Z; s_bar : option pstate }.
 
